@@ -578,6 +578,7 @@ def run(pid, tier, replay=None):
     builds = [("dev", vlib.build_harness())]
     if tier == "thorough":
         builds.append(("release", vlib.build_harness("release")))
+    gsbin = vlib.build_harness(gc_stress=True)      # laythe_core's stress feature: also collects at every non-growing reserve
     dump, table = load_table(builds[0][1])
     os.makedirs(vlib.WORK, exist_ok=True)
     tpath = os.path.join(vlib.WORK, f"natives_table_{os.getpid()}.json")
@@ -621,6 +622,8 @@ def run(pid, tier, replay=None):
         body_calls = [c for c in built if c["verdict"] == "body"]
         sample = body_calls if tier == "thorough" else random.Random(vlib.seed()).sample(body_calls, min(25000, len(body_calls)))
         matrix_runs.append((builds[0][0] + "+gc", builds[0][1], sample, {"gc": {"every": 1, "force_full": True}}))
+        # ... and on the gc_stress build (a collection also at every stack check)
+        matrix_runs.append(("gc_stress", gsbin, sample if tier == "thorough" else sample[:15000], None))
         if tier == "quick":
             # the release profile (no debug assertions, optimised): a sample of the matrix and all the families
             rel = vlib.build_harness("release")
@@ -651,8 +654,8 @@ def run(pid, tier, replay=None):
                 continue
             v.violation(f"[{label}] {c['src']} ends the process: status {r_.get('status')} panic={str(r_.get('panic'))[:200]} stderr={r_.get('stderr', '')[-200:]!r}",
                         {"call": c, "build": label, "observed": {"status": r_.get("status"), "panic": r_.get("panic"), "stderr": r_.get("stderr", "")[-600:]}})
-        if extra:
-            continue            # the collection schedule run covers the call matrix only
+        if extra or label == "gc_stress":
+            continue            # the collection schedule runs cover the call matrix only
         # exit(): every accepted call ends the process with a code, every refused one is an error
         cases = [{"id": f"x{i}", "files": {"/v/main.lay": HEADER + f'try {{ {e["src"]}; }} catch e {{ print("#~ err", e.message); }}\nprint("#~ end");'}, "main": "/v/main.lay"}
                  for i, e in enumerate(excases)]
@@ -687,40 +690,45 @@ def run(pid, tier, replay=None):
         if not replay and label == builds[0][0]:
             # the same families under a collection at every allocation: same outcome (frames, handlers, errors in flight,
             # fibers being split off and natives calling back are all live across a collection)
-            cases = [{"id": f"g{i}", "files": {"/v/main.lay": src}, "main": "/v/main.lay", "stack_mb": 64, "gc": {"every": 1, "force_full": True}}
-                     for i, (fid, src, exp) in enumerate(fams)]
-            resg = vlib.run_batch(binary, cases, per_case_timeout=120)
-            for i, (fid, src, exp) in enumerate(fams):
-                r_ = resg[f"g{i}"]
-                judged += 1
-                what = judge_family(exp, r_)
-                if what:
-                    v.violation(f"[{label}+gc] {fid}: {what}", {"id": fid, "source": src, "expect": exp, "build": label + "+gc",
-                                "observed": {"status": r_.get("status"), "code": r_.get("code"), "stdout": r_.get("stdout", "")[:600],
-                                             "stderr": r_.get("stderr", "")[-600:], "panic": r_.get("panic")}})
+            for gname, gbin, gopts in (("+gc", binary, {"gc": {"every": 1, "force_full": True}}), ("+stress", gsbin, {})):
+                cases = [dict({"id": f"g{i}", "files": src if isinstance(src, dict) else {"/v/main.lay": src}, "main": "/v/main.lay", "stack_mb": 64}, **gopts)
+                         for i, (fid, src, exp) in enumerate(fams)]
+                resg = vlib.run_batch(gbin, cases, per_case_timeout=120)
+                for i, (fid, src, exp) in enumerate(fams):
+                    r_ = resg[f"g{i}"]
+                    judged += 1
+                    what = judge_family(exp, r_)
+                    if what:
+                        v.violation(f"[{label}{gname}] {fid}: {what}", {"id": fid, "source": src, "expect": exp, "build": label + gname,
+                                    "observed": {"status": r_.get("status"), "code": r_.get("code"), "stdout": r_.get("stdout", "")[:600],
+                                                 "stderr": r_.get("stderr", "")[-600:], "panic": r_.get("panic")}})
         if not replay:
             tiny = tiny_error_programs()
             files_of = lambda src: src if isinstance(src, dict) else {"/v/main.lay": src}
             plain = vlib.run_batch(binary, [{"id": f"t{j}", "files": files_of(src), "main": "/v/main.lay"} for j, (tid, src) in enumerate(tiny)], per_case_timeout=30)
             dense = vlib.run_batch(binary, [{"id": f"t{j}", "files": files_of(src), "main": "/v/main.lay", "gc": {"every": 1, "force_full": True}}
                                             for j, (tid, src) in enumerate(tiny)], per_case_timeout=30)
+            stress = vlib.run_batch(gsbin, [{"id": f"t{j}", "files": files_of(src), "main": "/v/main.lay"} for j, (tid, src) in enumerate(tiny)], per_case_timeout=60) \
+                if label == builds[0][0] else dict(dense)
             # every raiser also as an entry of an interactive session (each entry is a script of its own)
             sess = [f"{w};" for w in TINY_RAISERS] + ['print("still here");']
             plain["session"] = vlib.run_batch(binary, [{"id": "session", "repl": sess}], per_case_timeout=60)["session"]
             dense["session"] = vlib.run_batch(binary, [{"id": "session", "repl": sess, "gc": {"every": 1, "force_full": True}}], per_case_timeout=60)["session"]
+            stress["session"] = vlib.run_batch(gsbin, [{"id": "session", "repl": sess}], per_case_timeout=60)["session"] if label == builds[0][0] else dense["session"]
             tiny = tiny + [("tinysession", "\n".join(sess))]
-            plain[f"t{len(tiny) - 1}"], dense[f"t{len(tiny) - 1}"] = plain["session"], dense["session"]
+            plain[f"t{len(tiny) - 1}"], dense[f"t{len(tiny) - 1}"], stress[f"t{len(tiny) - 1}"] = plain["session"], dense["session"], stress["session"]
             for j, (tid, src) in enumerate(tiny):
-                a, b_ = plain[f"t{j}"], dense[f"t{j}"]
+                a = plain[f"t{j}"]
                 judged += 1
                 strip = lambda t: re.sub(r"0x[0-9a-f]+", "0x?", t or "")
                 what = None
-                for name, r_ in (("", a), ("+gc", b_)):
+                for name, r_ in (("", a), ("+gc", dense[f"t{j}"]), ("+stress", stress[f"t{j}"])):
                     if r_.get("status") in ("panic", "crash", "hang", "timeout"):
                         what = f"[{label}{name}] {tid}: ends in a host failure: {r_.get('status')} {str(r_.get('panic'))[:160]} signal={r_.get('signal')}"
-                if what is None and (a.get("status") != b_.get("status") or strip(a.get("stdout")) != strip(b_.get("stdout")) or strip(a.get("stderr")) != strip(b_.get("stderr"))):
-                    what = (f"[{label}] {tid}: a collection at every allocation changes what the program reports: {strip(a.get('stdout'))[-120:]!r} / "
-                            f"{strip(a.get('stderr'))[-100:]!r} becomes {strip(b_.get('stdout'))[-120:]!r} / {strip(b_.get('stderr'))[-100:]!r}")
+                for name, b_ in (("a collection at every allocation", dense[f"t{j}"]), ("the gc_stress build", stress[f"t{j}"])):
+                    if what is None and (a.get("status") != b_.get("status") or strip(a.get("stdout")) != strip(b_.get("stdout")) or strip(a.get("stderr")) != strip(b_.get("stderr"))):
+                        what = (f"[{label}] {tid}: {name} changes what the program reports: {strip(a.get('stdout'))[-120:]!r} / "
+                                f"{strip(a.get('stderr'))[-100:]!r} becomes {strip(b_.get('stdout'))[-120:]!r} / {strip(b_.get('stderr'))[-100:]!r}")
                 if what:
                     v.violation(what, {"id": tid, "source": src, "expect": {"contract": True}, "build": label})
         if not replay and label == builds[0][0]:
@@ -733,18 +741,20 @@ def run(pid, tier, replay=None):
             plain = vlib.run_batch(binary, [{"id": f"o{j}", "files": {"/v/main.lay": single(c)}, "main": "/v/main.lay"} for j, c in enumerate(pick)], per_case_timeout=30)
             dense = vlib.run_batch(binary, [{"id": f"o{j}", "files": {"/v/main.lay": single(c)}, "main": "/v/main.lay", "gc": {"every": 1, "force_full": True}}
                                             for j, c in enumerate(pick)], per_case_timeout=30)
+            stress = vlib.run_batch(gsbin, [{"id": f"o{j}", "files": {"/v/main.lay": single(c)}, "main": "/v/main.lay"} for j, c in enumerate(pick)], per_case_timeout=60)
             strip = lambda t: re.sub(r"0x[0-9a-f]+|\d{6,}(\.\d+)?", "?", t or "")
             shown = collections.Counter()
             for j, c in enumerate(pick):
-                a, b_ = plain[f"o{j}"], dense[f"o{j}"]
+                a = plain[f"o{j}"]
                 judged += 1
                 what = None
-                for name, r_ in (("", a), ("+gc", b_)):
+                for name, r_ in (("", a), ("+gc", dense[f"o{j}"]), ("+stress", stress[f"o{j}"])):
                     if r_.get("status") in ("panic", "crash", "hang", "timeout"):
                         what = f"[{label}{name}] {c['src']} as a script of its own: host failure: {r_.get('status')} {str(r_.get('panic'))[:160]} signal={r_.get('signal')}"
-                if what is None and (a.get("status") != b_.get("status") or strip(a.get("stdout")) != strip(b_.get("stdout"))):
-                    what = (f"[{label}] {c['src']} as a script of its own: a collection at every allocation changes the report: "
-                            f"{strip(a.get('stdout'))[-140:]!r} becomes {strip(b_.get('stdout'))[-140:]!r}")
+                for name, b_ in (("a collection at every allocation", dense[f"o{j}"]), ("the gc_stress build", stress[f"o{j}"])):
+                    if what is None and (a.get("status") != b_.get("status") or strip(a.get("stdout")) != strip(b_.get("stdout"))):
+                        what = (f"[{label}] {c['src']} as a script of its own: {name} changes the report: "
+                                f"{strip(a.get('stdout'))[-140:]!r} becomes {strip(b_.get('stdout'))[-140:]!r}")
                 if what:
                     shown[(c["owner"], c["name"])] += 1
                     if shown[(c["owner"], c["name"])] <= 2:
@@ -754,9 +764,9 @@ def run(pid, tier, replay=None):
             # (a mutant may loop: a timeout is not judged)
             muts = mutant_programs(binary, random.Random(vlib.seed() * 17 + 3), 6000 if tier == "quick" else 150000)
             v.notes["accepted_mutants_run"] = len(muts)
-            for extra_name, extra_opts in (("", {}), ("+gc", {"gc": {"every": 1, "force_full": True}})):
+            for extra_name, extra_opts, mbin in (("", {}, binary), ("+gc", {"gc": {"every": 1, "force_full": True}}, binary), ("+stress", {}, gsbin)):
                 cases = [dict({"id": f"u{j}", "files": {"/v/main.lay": t}, "main": "/v/main.lay"}, **extra_opts) for j, (cid, t) in enumerate(muts)]
-                resm = vlib.run_batch(binary, cases, per_case_timeout=3)
+                resm = vlib.run_batch(mbin, cases, per_case_timeout=3)
                 seen_sites = collections.Counter()
                 for j, (cid, t) in enumerate(muts):
                     r_ = resm[f"u{j}"]
@@ -805,7 +815,7 @@ def run(pid, tier, replay=None):
     v.notes["calls_run"] = len(built)
     v.notes["family_programs"] = len(fams)
     v.notes["verdicts"] = dict(collections.Counter(c["verdict"] for c in built))
-    v.notes["builds"] = [r[0] for r in matrix_runs]
+    v.notes["builds"] = [r[0] for r in matrix_runs] + ["gc_stress (families, tiny programs, single-call scripts, accepted mutants)"]
     v.assumptions = ["the natives table is what `lvh natives` (verif hook) reads from the VM's global module and standard library modules",
                      "the gate's verdict is observed through its error messages (<name> expected .. argument(s) / <name>'s parameter .. / todo)",
                      "index operators are only called with the operand count the syntax allows"]
